@@ -5,13 +5,18 @@ import parso
 from parso import cache as pcache
 
 LEVEL = 'translation_validation'
-TECHNIQUE = ('translation validation of edit histories: the tree returned by the incremental parser is compared, step by step, with the fresh parse of the '
+VFILES = ['Lines.v', 'Tok.v', 'TokShift.v', 'Engine.v', 'Model.v', 'Properties/C04.v']
+TECHNIQUE = ('Coq simulation proof that the tokenizer model commutes with a shift of the start line (the fact behind moving copied nodes by a line offset) '
+             '+ translation validation of edit histories: the tree returned by the incremental parser is compared, step by step, with the fresh parse of the '
              'Gallina pipeline model (Lines -> Tokenizer -> Engine, extracted) and with the implementation\'s own fresh parse')
-EXPLANATION = ('DiffParser/_NodesTree/difflib are not modelled in Gallina (DESIGN.md section 9). The reference the implementation is validated against is '
+EXPLANATION = ('Proved for all inputs on the tokenizer model (Properties/C04.v, TokShift.tok_shift): tokenizing the same lines with the start line moved by k returns the same '
+               'tokens with k added to every line number, and the same error otherwise - the fact that lets DiffParser move copied nodes by a line offset and '
+               're-tokenize a region with start_pos=(line_offset+1, 0); tied to the code by the tok stream and by the shift-invariance stream of this check '
+               '(the implementation tokenizer run at two start lines). DiffParser/_NodesTree/difflib are not modelled in Gallina (DESIGN.md section 9). The reference the implementation is validated against is '
                'the model pipeline parse_text, whose agreement with a fresh implementation parse is itself a correspondence stream of this check; every '
                'history step compares type/value/prefix/position of every node, parent links, get_code and the used-names index.')
 LEVEL_TEXT = EXPLANATION
-ASSUMPTIONS = ['the locality theorems (tok_shift, tok_resume, parse_stmt_local) that would justify node copying are not proved; C04 is decided by validation of histories only']
+ASSUMPTIONS = ['of the locality facts that justify node copying only tok_shift is proved; tok_resume (restarting at a clean state) and statement locality of the engine are not, and the copy logic is decided by validation of histories']
 
 FRAGS = [' ', '\t', '\n', '\r', '\f', '\x0b', '\x1c', '\x1d', '\x1e', '\x85', '\u2028', '\u2029', '\n\f\n', '# c\x85d', '\f\n   ', 'f"', 'F"""', "fr'", "RF'''", '"', '"""', "'", "'''", ';', ' some_random_word ', '\\', '#',
          'def ', 'class ', 'if ', 'else', 'elif ', 'for ', 'while ', 'try', 'except', 'finally', 'with ', 'return ', 'lambda ', 'import ',
@@ -130,9 +135,36 @@ def check_history(ctx, v, hist, index, drv_reqs):
     pcache.parser_cache.pop(g._hashed, None)
 
 
+def shift_invariance(ctx, n):
+    """the implementation tokenizer at start line 1 and at start line 1 + k: same tokens, lines moved by k (TokShift.tok_shift on the code)"""
+    from parso.python.tokenize import tokenize_lines
+    from parso.utils import split_lines, parse_version_string
+    for i in range(n):
+        r = gens.rng(ctx.seed, 'c04-shift', i)
+        kind, code = gens.text_case(r.random(), 'c04-shift', i, None)
+        v = r.choice(streams.versions())
+        k = r.choice([1, 2, 7, 40, 1000])
+        lines = split_lines(code[:2000], keepends=True)
+        first = r.random() < 0.5
+        inds = r.choice([[0], [0], [0, 4], [0, 2, 6]])
+        ctx.count('shift-cases')
+
+        def toks(sl):
+            try:
+                return [(t.type.name, t.string, t.start_pos, t.prefix) for t in
+                        tokenize_lines(list(lines), version_info=parse_version_string(v), indents=list(inds), start_pos=(sl, 0), is_first_token=first)]
+            except Exception as e:
+                return preds.crash_sig(e)
+        a, b2 = toks(1), toks(1 + k)
+        exp = a if isinstance(a, str) else [(t, s_, (p[0] + k, p[1]), pre) for t, s_, p, pre in a]
+        if exp != b2:
+            ctx.violation('C04:tokenizer-not-shift-invariant', dict(kind='shift', version=v, code=code[:2000], k=k, first=first, indents=inds))
+
+
 def run(ctx, b, drv):
     pend = base.Pending(ctx)
-    base.obligations(ctx, b, pend, ['Lines.v', 'Tok.v', 'Engine.v', 'Model.v'])
+    base.obligations(ctx, b, pend, VFILES)
+    shift_invariance(ctx, base.scale(ctx, 400))
     base.mismatches(ctx, pend, streams.run_parse(ctx, base.scale(ctx, 800), drv), None)
     n = base.scale(ctx, 600)
     reqs = []
@@ -162,6 +194,8 @@ def run(ctx, b, drv):
 
 def replay(ctx, rp):
     """re-run a recorded edit history against the current /repo"""
+    if rp.get('kind') == 'shift':
+        return 'shift-replay: tokenize_lines(split_lines(code), start_pos=(1,0)) vs start_pos=(1+k,0), see the replay fields'
     if rp.get('kind') != 'history' or not rp.get('steps'):
         return 'not-an-input-replay: run ./check C04 to re-decide'
     before = len(ctx.violations)
